@@ -102,6 +102,41 @@ func c18Monitor(args []string) int {
 		}
 	}
 	rep.Stats["slider_entries"] = rep.Cases
+	// the four line lookups of the older rotated-bitboard interface (rank, file, both diagonals): for every square
+	// every subset of the square's own line plus arbitrary occupancy elsewhere vs the ray walk along that line
+	type lineFn struct {
+		name string
+		f    func(Square, Bitboard) Bitboard
+		dirs []Direction
+	}
+	for _, lf := range []lineFn{{"GetMovesOnRank", GetMovesOnRank, []Direction{East, West}}, {"GetMovesOnFile", GetMovesOnFile, []Direction{North, South}},
+		{"GetMovesDiagUp", GetMovesDiagUp, []Direction{Northeast, Southwest}}, {"GetMovesDiagDown", GetMovesDiagDown, []Direction{Northwest, Southeast}}} {
+		for sq := 0; sq < 64; sq++ {
+			line := refLineMask(lf.dirs, sq)
+			sub := uint64(0)
+			for {
+				for k := 0; k < 1+noiseRounds; k++ {
+					noise := rng.U64() &^ line
+					if k == 0 {
+						noise = 0
+					}
+					occ := sub | noise
+					got, want := uint64(lf.f(Square(sq), Bitboard(occ))), refSlide(lf.dirs, sq, occ)
+					rep.Cases++
+					rep.Stats["line_lookups"]++
+					if got != want {
+						rep.Violate("slider-attacks", map[string]interface{}{"piece": lf.name, "square": Square(sq).String(), "occupancy": fmt.Sprintf("0x%016x", occ)},
+							fmt.Sprintf("%s=0x%016x geometric=0x%016x", lf.name, got, want))
+					}
+				}
+				sub = (sub - line) & line
+				if sub == 0 {
+					break
+				}
+			}
+		}
+	}
+
 	// leapers / pawns / distances / between
 	kn := [][2]int{{1, 2}, {2, 1}, {2, -1}, {1, -2}, {-1, -2}, {-2, -1}, {-2, 1}, {-1, 2}}
 	for sq := 0; sq < 64; sq++ {
